@@ -87,13 +87,38 @@ def hash_case(rng, kind, tier):
         tab = elfgen.build_gnu_hash(cl, little, order, nbucket, nbloom, shift, symoffset)
         hashfn = elfgen.gnu_hash
         first = symoffset
-    queries = list(dict.fromkeys(rng.sample(order, min(len(order), 12)) + colliding_absent(rng, order, hashfn, nbucket) + [b"absent_name", b""]))
+    spanning = []
+    if len(order) >= 2:          # a query with an interior NUL that reads like two adjacent string-table entries: never a symbol's name
+        for _ in range(2):
+            k = rng.randrange(0, len(order) - 1)
+            spanning += [order[k] + b"\0" + order[k + 1], order[k] + b"\0"]
+    queries = list(dict.fromkeys(rng.sample(order, min(len(order), 12)) + colliding_absent(rng, order, hashfn, nbucket) + spanning + [b"absent_name", b""]))
     exp = []
     for q in queries:
         idxs = [first + k for k, n in enumerate(order) if n == q]
         exp.append(idxs)
     line = "%s %s %d %s %s %s | %s" % (kind, spec, cl, hx(tab), hx(symtab), hx(strtab), " | ".join(hx(q) for q in queries))
     return line, (queries, exp)
+
+
+def forged_span_case(rng):
+    """a .gnu.hash whose bloom filter passes everything and whose chain word for symbol j carries the hash of the query
+    name_j + NUL + name_(j+1) (two adjacent string-table entries read as one): a sound lookup compares the whole name"""
+    spec = rng.choice(SPECS)
+    little = spec_little(spec)
+    cl = rng.choice((32, 64))
+    names = elfgen.random_names(rng, rng.choice([2, 3, 5]), ("ascii",))
+    order = elfgen.gnu_sort(names, 1)
+    symtab, strtab = elfgen.build_symtab(cl, little, order)
+    tab = bytearray(elfgen.build_gnu_hash(cl, little, order, 1, 1, rng.randrange(0, 32), 1))
+    w = 4 if cl == 32 else 8
+    tab[16:16 + w] = b"\xff" * w                       # bloom: every bit set
+    j = rng.randrange(0, len(order) - 1)
+    q = order[j] + b"\0" + order[j + 1]
+    cpos = 16 + w + 4 + 4 * j                           # header, 1 bloom word, 1 bucket, chain[j]
+    old = int.from_bytes(tab[cpos:cpos + 4], "little" if little else "big")
+    tab[cpos:cpos + 4] = enc(little, 4, (elfgen.gnu_hash(q) & ~1 & 0xffffffff) | (old & 1))
+    return "gnu %s %d %s %s %s | %s | %s" % (spec, cl, hx(tab), hx(symtab), hx(strtab), hx(q), hx(order[j + 1]))
 
 
 def corrupt_case(rng, kind, tier):
